@@ -110,8 +110,45 @@ def _vecmat(s, v):
     return [sum(s[i] * v[i][j] for i in range(3)) for j in range(3)]
 
 
+def _lowbit_exp(x):
+    """exponent e of the lowest set bit of a non-zero dyadic rational x (x = odd * 2^e)."""
+    x = Fraction(x)
+    n, d = abs(x.numerator), x.denominator
+    return (n & -n).bit_length() - 1 - (d.bit_length() - 1)
+
+
+def _is_pow2(n):
+    return n > 0 and (n & (n - 1)) == 0
+
+
+def _fewbits(x, bits=24):
+    """x is a double with at most `bits` significant bits (scale-free `dyadic with few bits`)."""
+    f = Fraction(float(x))
+    if f == 0:
+        return True
+    if not _is_pow2(f.denominator):
+        return False
+    n = abs(f.numerator)
+    n >>= (n & -n).bit_length() - 1
+    return n.bit_length() <= bits
+
+
+SCALE_EXPONENTS = [-480, -300, -100, -40, -33, -27, -24, -20, -17, -14, -10, 10, 20, 40, 100, 300, 480]
+
+
+def _signed_perm(rng):
+    """a random signed permutation matrix (an exact orthogonal map: axis permutation + mirror)."""
+    perm = [0, 1, 2]
+    rng.shuffle(perm)
+    return [[(rng.choice([-1, 1]) if j == perm[i] else 0) for j in range(3)] for i in range(3)]
+
+
+def _matmul(a, b):
+    return [[sum(a[i][k] * b[k][j] for k in range(3)) for j in range(3)] for i in range(3)]
+
+
 def _gen_box(rng):
-    kind = rng.choice(['cubic', 'ortho', 'tilted', 'tilted', 'triclinic'])
+    kind = rng.choice(['cubic', 'ortho', 'tilted', 'tilted', 'triclinic', 'sheared', 'sheared', 'flat', 'rotated'])
     if kind == 'cubic':
         a = rng.choice([2.0, 4.0, 8.0])
         v = [[a, 0, 0], [0, a, 0], [0, 0, a]]
@@ -122,6 +159,27 @@ def _gen_box(rng):
         v = [[rng.choice([4.0, 8.0]), 0, 0],
              [cm.dyadic(rng, -2, 2, 2), rng.choice([4.0, 8.0]), 0],
              [cm.dyadic(rng, -2, 2, 2), cm.dyadic(rng, -2, 2, 2), rng.choice([4.0, 8.0])]]
+    elif kind == 'sheared':
+        # strongly sheared, NOT reduced: tilts of 1.25 .. 2.75 edge lengths, so that lattice combinations
+        # such as b - 2a are shorter than b and the nearest image of a point need not be an adjacent one
+        a, b, c = rng.choice([2.0, 4.0]), rng.choice([2.0, 4.0]), rng.choice([2.0, 4.0])
+
+        def tilt(edge):
+            return rng.choice([-1, 1]) * edge * rng.choice([1.25, 1.5, 2.0, 2.25, 2.5, 2.75]) if rng.random() < 0.75 else 0.0
+        v = [[a, 0, 0], [tilt(a), b, 0], [tilt(a), tilt(b), c]]
+    elif kind == 'flat':
+        e = [rng.choice([4.0, 8.0]), rng.choice([4.0, 8.0]), rng.choice([0.25, 0.5, 1.0])]
+        rng.shuffle(e)
+        v = [[e[0], 0, 0], [cm.dyadic(rng, -1, 1, 2) if rng.random() < 0.4 else 0.0, e[1], 0], [0, 0, e[2]]]
+    elif kind == 'rotated':
+        # a 3-4-5 rotation of an orthorhombic / tilted cell: entries in fifths, OFF the dyadic grid
+        base = [[rng.choice([4.0, 8.0]), 0, 0], [cm.dyadic(rng, -2, 2, 2), rng.choice([4.0, 8.0]), 0], [0, 0, rng.choice([4.0, 8.0])]]
+        c5, s5 = Fraction(3, 5), Fraction(4, 5)
+        ax = rng.randrange(3)
+        i, j = [(1, 2), (0, 2), (0, 1)][ax]
+        R = [[Fraction(int(p == q)) for q in range(3)] for p in range(3)]
+        R[i][i], R[i][j], R[j][i], R[j][j] = c5, -s5, s5, c5
+        v = [[float(x) for x in r] for r in _matmul([[Fraction(x) for x in r] for r in base], R)]
     else:
         while True:
             v = [[cm.dyadic(rng, -1, 1, 2) + (6.0 if i == j else 0.0) + (cm.dyadic(rng, -1, 1, 1) if i == j else 0.0)
@@ -130,38 +188,76 @@ def _gen_box(rng):
                 break
         if rng.random() < 0.3:            # left-handed
             v[0], v[1] = v[1], v[0]
-    v = [[float(x) for x in r] for r in v]
-    origin = [0.0, 0.0, 0.0] if rng.random() < 0.3 else [cm.dyadic(rng, -4, 4, 2) for _ in range(3)]
+    if kind != 'rotated' and rng.random() < 0.3:
+        # the same lattice in another setting: Cartesian axes permuted / mirrored (exact), cell vectors relabelled —
+        # not lower-triangular any more, every sign pattern of the diagonal, left-handed for odd parity
+        v = _matmul(v, _signed_perm(rng))
+        if rng.random() < 0.5:
+            rng.shuffle(v)
+    v = [[float(x) + 0.0 for x in r] for r in v]
+    r = rng.random()
+    if r < 0.3:
+        origin = [0.0, 0.0, 0.0]
+    elif r < 0.9:
+        origin = [cm.dyadic(rng, -4, 4, 2) for _ in range(3)]
+    else:
+        # a cell far from the coordinate origin: relative tolerances hidden in position comparisons show here
+        origin = [float(rng.choice([-1, 1]) * rng.choice([1024, 4096, 16384]) + cm.dyadic(rng, -4, 4, 2)) for _ in range(3)]
     return kind, v, origin
 
 
+# (default name, dtype, per-atom shape): scalars of every kind, vectors, tensors, rank 3, the degenerate
+# shapes (1,) and (1,1), fixed-width strings
 PROP_POOL = [('charge', 'float', ()), ('tag', 'int', ()), ('flag', 'bool', ()), ('vel', 'float', (3,)),
-             ('stress', 'float', (3, 3)), ('cube', 'int', (2, 2, 2))]
+             ('stress', 'float', (3, 3)), ('cube', 'int', (2, 2, 2)), ('one', 'float', (1,)), ('oneone', 'int', (1, 1)),
+             ('label', 'str', ()), ('names', 'str', (2,))]
+# names that are substrings / prefixes of the reserved keys, and names of the generators' own parameters
+# (a property called like a parameter can never be given through **kwargs: it keeps its default)
+TRICKY_NAMES = ['p', 'o', 's', 'os', 'po', 'a', 't', 'type', 'atyp', 'old', 'id', 'old_id2', 'posn', 'ol',
+                'scale', 'atol', 'ptd_id', 'db_vect', 'ptd_type', 'system']
+PARAM_NAMES = ('system', 'ptd_type', 'pos', 'ptd_id', 'db_vect', 'scale', 'atol', 'atype')
+STR_POOL = ['', 'a', 'Al', 'xy', 'Cu1', 'vac', '0', '0.0']
 
 
-def _rand_value(rng, dtype, shape):
+def _str_code(x):
+    """strings travel as integers on the wire ('' is 0: the zero value of a string array)."""
+    x = str(x)
+    return STR_POOL.index(x) if x in STR_POOL else 1000 + sum(ord(c) * (i + 1) for i, c in enumerate(x))
+
+
+def _rand_value(rng, dtype, shape, zero=False):
     n = 1
     for s in shape:
         n *= s
     if dtype == 'float':
-        flat = [cm.dyadic(rng, -4, 4, 3) for _ in range(n)]
+        flat = [0.0 if zero else cm.dyadic(rng, -4, 4, 3) for _ in range(n)]
     elif dtype == 'int':
-        flat = [rng.randint(-9, 9) for _ in range(n)]
+        flat = [0 if zero else rng.randint(-9, 9) for _ in range(n)]
+    elif dtype == 'str':
+        flat = [0 if zero else rng.randrange(6) for _ in range(n)]        # codes of STR_POOL
     else:
-        flat = [rng.random() < 0.5 for _ in range(n)]
+        flat = [False if zero else rng.random() < 0.5 for _ in range(n)]
     return flat
 
 
-def _gen_system(rng, natoms=None):
+def _gen_system(rng, natoms=None, k=None):
     kind, vects, origin = _gen_box(rng)
     n = natoms if natoms is not None else rng.choice([1, 2, 2, 3, 3, 3, 4, 4, 5, 6, 8])
     V = [[Fraction(x) for x in r] for r in vects]
     O = [Fraction(x) for x in origin]
+    outside = rng.random() < 0.2          # atoms outside the cell (up to a cell below / above)
+    hair = rng.random() < 0.15            # atoms a hair off faces / edges
     rels = set()
     while len(rels) < n:
-        rels.add(tuple(Fraction(rng.randint(0, 7), 8) for _ in range(3)))
+        r = [Fraction(rng.randint(-8, 15) if outside else rng.randint(0, 7), 8) for _ in range(3)]
+        if hair and rng.random() < 0.5:
+            j = rng.randrange(3)
+            r[j] = Fraction(rng.choice([0, 1])) + rng.choice([-1, 1]) * Fraction(1, 2 ** rng.choice([7, 9]))
+        rels.add(tuple(r))
     rels = sorted(rels)
     rng.shuffle(rels)
+    if rng.random() < 0.15:
+        rels[0] = (Fraction(0), Fraction(0), Fraction(0))      # an atom at the cell origin: box-relative pos [0,0,0]
     pos = [[float(c + o) for c, o in zip(_vecmat(list(r), V), O)] for r in rels]
     if n >= 2 and rng.random() < 0.2:
         # a close pair: atom 1 sits 1/32 away from atom 0 (ambiguous for atol >= 1/16 ... )
@@ -173,8 +269,12 @@ def _gen_system(rng, natoms=None):
     names = ['Al', 'Cu', 'Ni', 'Fe', 'Si', 'Ge']
     symbols = names[:rng.choice([0, 1, max(atype), max(atype), max(atype) + 1])]
     props = {}
+    tricky = list(TRICKY_NAMES)
+    rng.shuffle(tricky)
     for name, dtype, shape in PROP_POOL:
-        if rng.random() < 0.35:
+        if rng.random() < 0.3:
+            if rng.random() < 0.3:
+                name = tricky.pop()
             props[name] = {'dtype': dtype, 'shape': list(shape),
                            'data': [_rand_value(rng, dtype, shape) for _ in range(n)]}
     old = None
@@ -187,12 +287,21 @@ def _gen_system(rng, natoms=None):
     ntyp = max(len(symbols), max(atype))
     if rng.random() < 0.45:
         masses = [None if rng.random() < 0.2 else cm.dyadic(rng, 1, 200, 2) for _ in range(rng.randint(1, ntyp))]
-    return {'cell': kind, 'vects': vects, 'origin': origin, 'pbc': [rng.random() < 0.7 for _ in range(3)],
+    # the whole geometry scaled by an exact power of two (cells in metres, in light-years): absolute
+    # tolerances hidden in the code show only away from the angstrom scale
+    if k is None:
+        k = rng.choice(SCALE_EXPONENTS) if rng.random() < 0.12 else 0
+    if k:
+        f = 2.0 ** k
+        vects = [[x * f for x in r] for r in vects]
+        origin = [x * f for x in origin]
+        pos = [[x * f for x in r] for r in pos]
+    return {'cell': kind, 'k': k, 'vects': vects, 'origin': origin, 'pbc': [rng.random() < 0.7 for _ in range(3)],
             'symbols': symbols, 'masses': masses, 'atype': atype, 'pos': pos, 'props': props, 'old_id': old,
             'old_first': old_first}
 
 
-_DT = {'float': float, 'int': int, 'bool': bool}
+_DT = {'float': float, 'int': int, 'bool': bool, 'str': '<U3'}
 
 
 def _mk_system(d):
@@ -203,7 +312,10 @@ def _mk_system(d):
     if d.get('old_id') is not None and d.get('old_first'):
         kw['old_id'] = np.array(d['old_id'], dtype=int)
     for name, p in d['props'].items():
-        kw[name] = np.array(p['data'], dtype=_DT[p['dtype']]).reshape((n,) + tuple(p['shape']))
+        data = p['data']
+        if p['dtype'] == 'str':
+            data = [[STR_POOL[c] if isinstance(c, int) and c < len(STR_POOL) else str(c) for c in row] for row in data]
+        kw[name] = np.array(data, dtype=_DT[p['dtype']]).reshape((n,) + tuple(p['shape']))
     if d.get('old_id') is not None and not d.get('old_first'):
         kw['old_id'] = np.array(d['old_id'], dtype=int)
     box = am.Box(vects=np.array(d['vects'], dtype=float), origin=np.array(d['origin'], dtype=float))
@@ -211,6 +323,10 @@ def _mk_system(d):
     masses = d.get('masses')
     return am.System(atoms=atoms, box=box, pbc=tuple(d['pbc']), symbols=list(d['symbols']),
                      masses=None if masses is None else list(masses))
+
+
+def _dtname(a):
+    return {'f': 'float', 'b': 'bool', 'U': 'str', 'S': 'str'}.get(a.dtype.kind, 'int')
 
 
 def _keys(system):
@@ -221,11 +337,22 @@ def _snapshot(system):
     """everything observable of a System, as plain data."""
     out = {'vects': system.box.vects.tolist(), 'origin': system.box.origin.tolist(),
            'pbc': [bool(b) for b in system.pbc], 'symbols': list(system.symbols), 'masses': list(system.masses),
-           'keys': list(system.atoms_prop())}
+           'keys': list(system.atoms_prop()),
+           # nothing may be left behind on the objects either (memoised lookups, flags)
+           'attrs': [sorted(vars(system)), sorted(vars(system.atoms)), sorted(vars(system.box))]}
     for k in system.atoms_prop():
         a = system.atoms.view[k]
         out['p:' + k] = (str(a.dtype), list(a.shape), a.ravel().tolist())
     return out
+
+
+def _num(a):
+    """numeric view of a per-atom value (strings as their codes)."""
+    np = _np()
+    a = np.asarray(a)
+    if a.dtype.kind in 'US':
+        return np.array([_str_code(x) for x in a.ravel().tolist()], dtype=float).reshape(a.shape)
+    return a
 
 
 def _dump(system):
@@ -248,7 +375,7 @@ def _dump(system):
         parts.append(cm.frs(v['pos'][i]))
         for k, w in zip(keys, widths):
             if w:
-                parts.append(cm.frs(np.asarray(v[k][i])))
+                parts.append(cm.frs(_num(v[k][i])))
         if hasold:
             parts.append(str(int(v['old_id'][i])))
     return ' '.join(parts)
@@ -299,13 +426,14 @@ def _same_dump(impl_text, model_text, loose_last):
     if len(a['atoms']) != len(b['atoms']):
         return False
     n = len(a['atoms'])
+    L = max([abs(v) for v in a['box'][:9]] + [Fraction(0)]) or Fraction(1)
     for j, (x, y) in enumerate(zip(a['atoms'], b['atoms'])):
         if (x[0], x[2], x[3]) != (y[0], y[2], y[3]):
             return False
         if x[1] != y[1]:
             if j < n - loose_last:
                 return False
-            if any(abs(p - q) > Fraction(1, 10 ** 12) * (1 + abs(q)) for p, q in zip(x[1], y[1])):
+            if any(abs(p - q) > Fraction(1, 10 ** 12) * (L + abs(q)) for p, q in zip(x[1], y[1])):
                 return False
     return True
 
@@ -324,13 +452,21 @@ def _gen_kwargs(rng, system, fn):
         return kw
     if rng.random() < 0.55:
         kw['atype'] = rng.randint(1, 4)
+        if rng.random() < 0.08:
+            kw['atype'] = rng.choice([0, 0, -1])             # atom types start at 1: refused
     if rng.random() < 0.15:
-        kw['old_id'] = rng.randint(50, 99)
+        # also 0 (falsy but a perfectly good id) and an id some atom already has
+        kw['old_id'] = rng.choice([rng.randint(50, 99), rng.randint(50, 99), 0, rng.randint(0, 9)])
     for k in _keys(system):
+        if k in PARAM_NAMES:
+            continue                                          # cannot be passed through **kwargs
         if rng.random() < 0.4:
             a = system.atoms.view[k]
-            dtype = 'float' if a.dtype.kind == 'f' else ('bool' if a.dtype.kind == 'b' else 'int')
-            kw[k] = {'dtype': dtype, 'shape': list(a.shape[1:]), 'flat': _rand_value(rng, dtype, a.shape[1:])}
+            dtype = _dtname(a)
+            # falsy-but-valid values (0, 0.0, False, '') are requested as often as any other
+            kw[k] = {'dtype': dtype, 'shape': list(a.shape[1:]),
+                     'flat': _rand_value(rng, dtype, a.shape[1:], zero=rng.random() < 0.25),
+                     'style': rng.choice(['array', 'array', 'list', 'tuple', 'nested'])}
     if rng.random() < 0.1:
         kw['bogus'] = {'dtype': 'float', 'shape': [], 'flat': [3.5]}
     return kw
@@ -346,8 +482,9 @@ ATOL_TYPES = ('float', 'int', 'np.float64', 'np.float32', 'np.int64')
 
 
 def _gen_offset(rng, kinds=('on', 'axis', 'diag2', 'diag3')):
-    """(offset (Fractions), its exact length, label).  The length is independent of the tolerance:
-    from 2^-12 (far inside the default 0.01) over 2^-7 / 2^-6 (the two sides of the default) to 1/2."""
+    """(offset (Fractions), its exact length, label) in units of the cell's length scale.  The length is
+    independent of the tolerance: from 2^-12 (far inside the default 0.01) over 2^-7 / 2^-6 (the two
+    sides of the default) to 1/2."""
     kind = rng.choice(kinds)
     if kind == 'on':
         return [Fraction(0)] * 3, Fraction(0), 'on-site'
@@ -360,32 +497,41 @@ def _gen_offset(rng, kinds=('on', 'axis', 'diag2', 'diag3')):
     return off, nrm * u, kind
 
 
-def _atol_candidates(m):
-    """tolerances around an offset of exact length `m` (None = default): [(value, label)]."""
+def _pow2(k):
+    return Fraction(2) ** k
+
+
+def _atol_candidates(m, k=0):
+    """tolerances around an offset of exact length `m` (None = default): [(value, label)].  `m` is in
+    working units already; `k` is the power-of-two scale of the cell (the explicit candidates scale with it,
+    the default does not)."""
+    f = float(_pow2(k))
     if m == 0:
-        return [(None, 'default'), (0, 'zero'), (1e-12, 'tiny'), (0.0625, 'above'), (1.0, 'above'), (-0.125, 'negative'),
-                (100.0, 'huge')]
+        return [(None, 'default'), (0, 'zero'), (1e-12 * f, 'tiny'), (0.0625 * f, 'above'), (1.0 * f, 'above'),
+                (-0.125 * f, 'negative'), (100.0 * f, 'huge')]
     import math
-    return [(None, 'default'), (0, 'zero'), (1e-12, 'tiny'), (float(m), 'tie'), (float(m - EPS12), 'just-below'),
-            (float(m + EPS12), 'just-above'), (math.nextafter(float(m), 0.0), 'ulp-below'),
-            (math.nextafter(float(m), 2.0), 'ulp-above'), (float(m) * (1 - 2.0 ** -20), 'ppm-below'),
-            (float(m / 2), 'below'), (float(2 * m), 'above'), (float(-m), 'negative'), (100.0, 'huge')]
+    eps = EPS12 * _pow2(k)
+    return [(None, 'default'), (0, 'zero'), (1e-12 * f, 'tiny'), (float(m), 'tie'), (float(m - eps), 'just-below'),
+            (float(m + eps), 'just-above'), (math.nextafter(float(m), 0.0), 'ulp-below'),
+            (math.nextafter(float(m), math.inf), 'ulp-above'), (float(m) * (1 - 2.0 ** -20), 'ppm-below'),
+            (float(m / 2), 'below'), (float(2 * m), 'above'), (float(-m), 'negative'), (100.0 * f, 'huge')]
 
 
 def _atol_types(v):
     """the Python/numpy types an explicit tolerance of value `v` can be given in without changing it."""
     np = _np()
     out = ['float', 'np.float64']
-    if float(v) == int(v):
+    if float(v) == int(v) and abs(v) < 2 ** 62:
         out += ['int', 'np.int64']
-    if float(np.float32(v)) == float(v):
-        out.append('np.float32')
+    with np.errstate(all='ignore'):
+        if float(np.float32(v)) == float(v):
+            out.append('np.float32')
     return out
 
 
-def _gen_atol(rng, m):
+def _gen_atol(rng, m, k=0):
     """(value or None, type tag, label) for an offset of exact length m."""
-    cands = _atol_candidates(m)
+    cands = _atol_candidates(m, k)
     v, label = rng.choice(cands + [cands[0]] * 3)          # the default keeps ~1/3 of the cases
     if v is None:
         return None, 'float', label
@@ -403,9 +549,24 @@ def _atol_obj(op):
             'np.float32': lambda: np.float32(v), 'np.int64': lambda: np.int64(int(v))}[t]()
 
 
+# working units the implementation may run under (atomman.unitconvert.reset_units): the documented default
+# tolerance is 0.01 ANGSTROM, i.e. 0.01 * (1 angstrom in the working length unit)
+UNITS = {'nm': ({'length': 'nm', 'mass': 'amu', 'energy': 'eV', 'charge': 'e'}, Fraction(1, 10)),
+         'pm': ({'length': 'pm'}, Fraction(100)),
+         'SI': ({'length': 'm', 'mass': 'kg', 'energy': 'J', 'charge': 'C'}, Fraction(1, 10 ** 10)),
+         'um-J': ({'length': 'um', 'energy': 'J'}, Fraction(1, 10 ** 4)),
+         'eV-only': ({'length': 'angstrom', 'energy': 'J'}, Fraction(1))}
+DEFAULT_UNITS = {'length': 'angstrom', 'mass': 'amu', 'energy': 'eV', 'charge': 'e'}
+
+
+def _default_atol_frac(op):
+    u = op.get('units')
+    return Fraction(1, 100) * UNITS[u][1] if u else Fraction(DEFAULT_ATOL)
+
+
 def _atol_frac(op):
     """the effective tolerance the documentation promises: the default only for None."""
-    return Fraction(DEFAULT_ATOL) if op['atol'] is None else Fraction(float(op['atol']))
+    return _default_atol_frac(op) if op['atol'] is None else Fraction(float(op['atol']))
 
 
 def _pos_arg(V, O, cart, scale):
@@ -420,9 +581,40 @@ def _rel_exact(V, O, cart):
     return all(Fraction(float(x)) == x and _is_dyadic(x) for x in rel)
 
 
-def _gen_op(rng, system):
-    """one insertion request derived from the current state of `system` (plain data)."""
+def _f32ok(vals):
+    np = _np()
+    with np.errstate(all='ignore'):
+        return all(float(np.float32(x)) == float(x) for x in vals)
+
+
+def _gen_styles(rng, op):
+    """the FORM in which the arguments are handed over (values unchanged)."""
+    if op['pos'] is not None:
+        pool = ['array'] * 6 + ['list', 'tuple', 'readonly', 'noncontig', 'row', 'mixed']
+        if _f32ok(op['pos']):
+            pool += ['float32', 'float32']
+        if all(float(x) == int(x) and abs(x) < 2 ** 40 for x in op['pos']):
+            pool += ['intlist', 'intarray'] + (['int32array'] if all(abs(x) < 2 ** 31 for x in op['pos']) else [])
+        op['posstyle'] = rng.choice(pool)
+    if op['db_vect'] is not None:
+        pool = ['array'] * 4 + ['list', 'tuple', 'readonly', 'noncontig', 'mixed']
+        if _f32ok(op['db_vect']):
+            pool += ['float32', 'float32']
+        if all(float(x) == int(x) and abs(x) < 2 ** 40 for x in op['db_vect']):
+            pool += ['intlist', 'intarray']
+        op['dbstyle'] = rng.choice(pool)
+    op['scalestyle'] = rng.choice(['bool'] * 5 + ['int', 'npbool'])
+    if op['ptd_id'] is not None and rng.random() < 0.25:
+        op['ptd_np'] = rng.choice(['int64', 'int32', 'int8', 'intp'])
+    if rng.random() < 0.06:
+        op['units'] = rng.choice(sorted(UNITS))
+
+
+def _gen_op(rng, system, k=0):
+    """one insertion request derived from the current state of `system` (plain data).  `k`: the cell is
+    scaled by 2^k — offsets, explicit tolerances and Cartesian vectors scale with it."""
     n = system.natoms
+    F = _pow2(k)
     V = [[Fraction(x) for x in r] for r in system.box.vects.tolist()]
     O = [Fraction(x) for x in system.box.origin.tolist()]
     fn = rng.choice(['vacancy', 'vacancy', 'interstitial', 'interstitial', 'substitutional', 'substitutional',
@@ -431,7 +623,7 @@ def _gen_op(rng, system):
           'db_vect': None, 'scale': rng.random() < 0.4, 'atol': None, 'atol_type': 'float',
           'kw': _gen_kwargs(rng, system, fn), 'positional': rng.random() < 0.15, 'note': []}
     # without a position the tolerance is irrelevant: any value must be accepted and ignored
-    op['atol'], op['atol_type'], _ = _gen_atol(rng, Fraction(0))
+    op['atol'], op['atol_type'], _ = _gen_atol(rng, Fraction(0), k)
     targets = []
 
     def site_pos(i):
@@ -442,13 +634,16 @@ def _gen_op(rng, system):
         if r < 0.35:
             shift = [rng.choice([-1, 0, 1]) for _ in range(3)]
             op['note'].append('image')
-        elif r < 0.40:
-            shift = [rng.choice([-2, 0, 2]) for _ in range(3)]
+        elif r < 0.42:
+            # a lattice translation beyond the adjacent cells (in a sheared cell it can be the SHORTEST one)
+            while max(abs(c) for c in shift) < 2:
+                shift = [rng.choice([-2, -1, 0, 0, 1, 2]) for _ in range(3)]
             op['note'].append('image2')
         base = [b + s for b, s in zip(base, _vecmat(shift, V))]
         off, m, label = _gen_offset(rng)
+        off, m = [c * F for c in off], m * F
         op['note'].append('offset:' + label)
-        op['atol'], op['atol_type'], tl = _gen_atol(rng, m)
+        op['atol'], op['atol_type'], tl = _gen_atol(rng, m, k)
         op['note'].append('atol:' + tl)
         if n >= 2 and rng.random() < 0.12:
             # ambiguous on purpose: a tolerance that also reaches another atom
@@ -477,13 +672,11 @@ def _gen_op(rng, system):
         mode = rng.choice(['idx'] * 7 + ['pos'] * 10 + ['both', 'neither'])
         if mode in ('idx', 'both'):
             op['ptd_id'] = rng.randint(-n - 2, n + 1)
-            if rng.random() < 0.2:
-                op['ptd_np'] = True                      # the index as a numpy integer
             if -n <= op['ptd_id'] < n:
                 targets.append(op['ptd_id'] % n)
         if mode in ('pos', 'both'):
             op['pos'] = site_pos(rng.randrange(n))
-        if fn == 'substitutional' and targets and rng.random() < 0.7:
+        if fn == 'substitutional' and targets and rng.random() < 0.7 and op['kw'].get('atype', 1) >= 1:
             # mostly a real substitution (a type the atom does not have); the rest exercises the refusal
             cur = int(system.atoms.atype[targets[0]])
             op['kw']['atype'] = rng.choice([t for t in (1, 2, 3, 4) if t != cur])
@@ -494,7 +687,9 @@ def _gen_op(rng, system):
             op['db_vect'] = [cm.dyadic(rng, -1, 1, 3) for _ in range(3)]
             if rng.random() < 0.15:
                 op['db_vect'] = [float(rng.randint(-1, 1)) for _ in range(3)]
-        op['dbstyle'] = rng.choice(['array', 'array', 'list', 'tuple', 'intlist'])
+            op['db_vect'] = [float(Fraction(x) * F) for x in op['db_vect']]
+        if rng.random() < 0.08:
+            op['db_vect'] = [0.0, 0.0, 0.0]              # falsy but valid: two atoms on the site
     if op['via'] == 'point' and fn == 'vacancy' and rng.random() < 0.25:
         op['omit_type'] = True                           # ptd_type defaults to 'v'
     if op['via'] == 'point' and rng.random() < 0.14:
@@ -514,39 +709,45 @@ def _gen_op(rng, system):
             op['ptd_type'] = rng.choice(['x', 'vac', '', FN_TYPE[fn].upper(), FN_TYPE[fn].upper(), FN_TYPE[fn] * 2,
                                          {'v': 'vacancy', 'i': 'interstitial', 's': 'substitutional', 'db': 'dumbbell'}[FN_TYPE[fn]]])
             op.pop('omit_type', None)
+    _gen_styles(rng, op)
     return op
 
 
-def _sweep_ops(rng, system, noffsets):
+def _sweep_ops(rng, system, noffsets, k=0):
     """The tolerance dimension, systematically, on ONE system (each op is an independent request):
     every generator, direct and through point(), the site seen directly and through a periodic image,
     offsets on-site / along one axis / along face and body diagonals, and for each offset EVERY
     tolerance candidate (None, 0, 1e-12, just below / exactly / just above the offset, half, double,
     negative, huge) in a random admissible type."""
     n = system.natoms
+    F = _pow2(k)
     V = [[Fraction(x) for x in r] for r in system.box.vects.tolist()]
     O = [Fraction(x) for x in system.box.origin.tolist()]
     pbc = [bool(b) for b in system.pbc]
     ops = []
     for fn in ('vacancy', 'interstitial', 'substitutional', 'dumbbell'):
-        offs = [_gen_offset(rng, kinds=(k,)) for k in ('on', 'axis', 'diag2', 'diag3')]
+        offs = [_gen_offset(rng, kinds=(kd,)) for kd in ('on', 'axis', 'diag2', 'diag3')]
         rng.shuffle(offs)
         for off, m, label in offs[:noffsets] if noffsets < 4 else offs:
+            off, m = [c * F for c in off], m * F
             i = rng.randrange(n)
             base = [Fraction(x) for x in system.atoms.pos[i].tolist()]
             shift = [rng.choice([-1, 0, 1]) if pb else 0 for pb in pbc] if rng.random() < 0.5 else [0, 0, 0]
             cart = [b + s + o for b, s, o in zip(base, _vecmat(shift, V), off)]
             scale = rng.random() < 0.4 and _rel_exact(V, O, cart)
-            for v, tl in _atol_candidates(m):
+            units = rng.choice(sorted(UNITS)) if rng.random() < 0.15 else None
+            for v, tl in _atol_candidates(m, k):
                 op = {'fn': fn, 'via': rng.choice(['direct', 'point']), 'ptd_type': FN_TYPE[fn],
                       'pos': _pos_arg(V, O, cart, scale), 'ptd_id': None, 'db_vect': None, 'scale': scale, 'atol': v,
                       'atol_type': 'float' if v is None else rng.choice(_atol_types(v)), 'kw': {},
                       'positional': rng.random() < 0.15,
                       'note': ['sweep', 'offset:' + label, 'atol:' + tl] + (['image'] if any(shift) else [])}
+                if units:
+                    op['units'] = units
                 if fn == 'substitutional':
                     op['kw']['atype'] = rng.choice([t for t in (1, 2, 3, 4) if t != int(system.atoms.atype[i])])
                 if fn == 'dumbbell':
-                    op['db_vect'] = [0.125, -0.25, 0.0]
+                    op['db_vect'] = [float(Fraction(x) * F) for x in (0.125, -0.25, 0.0)]
                     if scale:
                         op['db_vect'] = [0.03125, 0.0, -0.0625]
                 ops.append(op)
@@ -560,45 +761,97 @@ def _kw_values(op):
         if k in ('atype', 'old_id'):
             out[k] = int(v)
         else:
-            arr = np.array(v['flat'], dtype=_DT[v['dtype']]).reshape(tuple(v['shape']))
-            out[k] = arr if v['shape'] else arr[()].item()
+            flat = [STR_POOL[c] for c in v['flat']] if v['dtype'] == 'str' else v['flat']
+            arr = np.array(flat, dtype=_DT[v['dtype']]).reshape(tuple(v['shape']))
+            style = v.get('style', 'array')
+            if not v['shape']:
+                out[k] = arr[()] if style == 'nested' else arr[()].item()        # numpy scalar / Python scalar
+            elif style in ('list', 'nested'):
+                out[k] = arr.tolist()
+            elif style == 'tuple':
+                out[k] = tuple(arr.tolist()) if arr.ndim == 1 else arr.tolist()
+            else:
+                out[k] = arr
     return out
 
 
+def _styled(vals, style, rng_seed=0):
+    """hand a 3-vector over in the requested form (same numbers)."""
+    np = _np()
+    if vals is None:
+        return None
+    if style == 'list':
+        return [float(x) for x in vals]
+    if style == 'tuple':
+        return tuple(float(x) for x in vals)
+    if style == 'intlist':
+        return [int(x) for x in vals]
+    if style == 'intarray':
+        return np.array([int(x) for x in vals])
+    if style == 'int32array':
+        return np.array([int(x) for x in vals], dtype=np.int32)
+    if style == 'float32':
+        return np.array(vals, dtype=np.float32)
+    if style == 'readonly':
+        a = np.array(vals, dtype=float)
+        a.setflags(write=False)
+        return a
+    if style == 'noncontig':
+        big = np.full((3, 4), 7.25)
+        big[:, 1] = vals
+        return big[:, 1]                                   # a strided view
+    if style == 'row':
+        return np.array([vals], dtype=float)               # shape (1, 3)
+    if style == 'mixed':
+        # Python float, Python int / numpy.float32 where the value allows, numpy.float64 — in one list
+        out = []
+        for j, x in enumerate(vals):
+            x = float(x)
+            if j == 0 and x == int(x) and abs(x) < 2 ** 40:
+                out.append(int(x))
+            elif j == 1 and _f32ok([x]):
+                out.append(np.float32(x))
+            elif j == 2:
+                out.append(np.float64(x))
+            else:
+                out.append(x)
+        return out
+    return np.array(vals, dtype=float)
+
+
+def _set_units(name):
+    import atomman.unitconvert as uc
+    uc.reset_units(**(UNITS[name][0] if name else DEFAULT_UNITS))
+
+
 def _call(op, system):
-    """run the insertion on the real code; returns ('ok', System) or ('err', class, message)."""
+    """run the insertion on the real code; returns ('ok', System, argument objects) or ('err', class, message)."""
     np = _np()
     import atomman.defect as D
     kw = _kw_values(op)
-    pos = op['pos']
-    if pos is not None:
-        style = op.get('posstyle', 'array')
-        if style == 'array':
-            pos = np.array(pos, dtype=float)
-        elif style == 'list':
-            pos = [float(x) for x in pos]
-        elif style == 'tuple':
-            pos = tuple(float(x) for x in pos)
-        elif style == 'intlist':
-            pos = [int(x) for x in pos]
-        elif style == 'intarray':
-            pos = np.array([int(x) for x in pos])
-    db = None if op['db_vect'] is None else np.array(op['db_vect'], dtype=float)
-    if db is not None:
-        dbstyle = op.get('dbstyle', 'array')
-        if dbstyle == 'list':
-            db = [float(x) for x in op['db_vect']]
-        elif dbstyle == 'tuple':
-            db = tuple(float(x) for x in op['db_vect'])
-        elif dbstyle == 'intlist' and all(float(x) == int(x) for x in op['db_vect']):
-            db = [int(x) for x in op['db_vect']]
+    pos = _styled(op['pos'], op.get('posstyle', 'array'))
+    dbstyle = op.get('dbstyle', 'array')
+    if dbstyle in ('intlist', 'intarray') and op['db_vect'] is not None and \
+            not all(float(x) == int(x) for x in op['db_vect']):
+        dbstyle = 'list'
+    db = _styled(op['db_vect'], dbstyle)
     args_before = (copy.deepcopy(pos), copy.deepcopy(db), copy.deepcopy(kw))
     atol = _atol_obj(op)
     ptd = op['ptd_id']
     if ptd is not None and op.get('ptd_np'):
-        ptd = np.int64(ptd)
-    sc = op['scale']
+        t = op['ptd_np'] if isinstance(op['ptd_np'], str) else 'int64'
+        if t == 'int8' and not -128 <= ptd < 128:
+            t = 'int64'
+        ptd = getattr(np, t)(ptd)
+    if ptd is not None and op.get('ptd_float') is not None:
+        ptd = op['ptd_float']                              # a non-integer index object: must be refused
+        if op.get('ptd_float_np'):
+            ptd = np.float64(ptd)
+    sc = {'int': int, 'npbool': np.bool_}.get(op.get('scalestyle', 'bool'), bool)(op['scale'])
+    units = op.get('units')
     try:
+        if units:
+            _set_units(units)
         if op.get('positional'):
             # the documented parameter order is part of the interface
             if op['via'] == 'point':
@@ -630,7 +883,7 @@ def _call(op, system):
             r = D.dumbbell(system, pos=pos, ptd_id=ptd, db_vect=db, scale=sc, atol=atol, **kw)
         if not _same_args(args_before, (pos, db, kw)):
             return ('err', 'other', 'ArgumentMutated: the pos / db_vect / property-value objects of the caller were modified')
-        return ('ok', r)
+        return ('ok', r, (pos, db, kw))
     except ValueError as e:
         return ('err', 'value', f'{type(e).__name__}: {e}')
     except AssertionError as e:
@@ -641,6 +894,9 @@ def _call(op, system):
         return ('err', 'index', f'{type(e).__name__}: {e}')
     except Exception as e:  # noqa
         return ('err', 'other', f'{type(e).__name__}: {e}')
+    finally:
+        if units:
+            _set_units(None)
 
 
 def _same_args(a, b):
@@ -683,7 +939,7 @@ def _state(system):
     rows = []
     for i in range(system.natoms):
         rows.append({'atype': int(v['atype'][i]), 'pos': [Fraction(x) for x in v['pos'][i].tolist()],
-                     'props': {k: [_F(x) for x in _np().asarray(v[k][i]).ravel().tolist()] for k in keys},
+                     'props': {k: [_F(x) for x in _num(v[k][i]).ravel().tolist()] for k in keys},
                      'old': int(v['old_id'][i]) if 'old_id' in v else None})
     return {'vects': [[Fraction(x) for x in r] for r in system.box.vects.tolist()],
             'origin': [Fraction(x) for x in system.box.origin.tolist()],
@@ -712,44 +968,94 @@ def _cart(st, op):
     return p
 
 
+def _lscale(st):
+    """the length scale of the cell (largest |component| of the cell vectors)."""
+    return max(abs(float(x)) for r in st['vects'] for x in r) or 1.0
+
+
 def _sites(st, cart, atol):
     """(matching indices, flags) — flags name what would make IEEE evaluation differ from exact
-    arithmetic: 'near-tol' a non-zero distance within 1e-9 of |atol|; 'near-zero' a tiny non-zero
-    distance; 'zero-small-tol' an exact hit judged with a tolerance below 1e-9."""
+    arithmetic: 'near-tol' a non-zero distance within 1e-9 (relative) of |atol|; 'near-zero' a non-zero
+    distance below 1e-9 of the cell's length scale; 'zero-small-tol' an exact hit judged with a tolerance
+    below that."""
     at = Fraction(atol)
+    L = _lscale(st)
     hits, flags = [], set()
     for i, r in enumerate(st['rows']):
         m = _d2(st, cart, r['pos'])
         if m == 0 or (at >= 0 and m <= at * at):
             hits.append(i)
-        dm = float(m) ** 0.5
-        if m > 0 and abs(dm - abs(float(at))) <= 1e-9 * (1 + abs(float(at))):
+        dm = _fsqrt(m)
+        if m > 0 and abs(dm - abs(float(at))) <= 1e-9 * max(dm, abs(float(at))):
             # a distance that is itself a dyadic number (d2 a perfect square) is computed exactly by
             # sqrt: the comparison with ANY tolerance, one ulp away included, is then exact
             flags.add('near-tol-exact-root' if _exact_root(m) else 'near-tol')
-        if 0 < dm < 1e-9:
+        if 0 < dm < 1e-9 * L:
             flags.add('near-zero')
-        if m == 0 and abs(float(at)) < 1e-9:
+        if m == 0 and (at < 0 or abs(float(at)) < 1e-9 * L):
             flags.add('zero-small-tol')
     return hits, flags
 
 
+def _fsqrt(m):
+    """float square root of a non-negative Fraction of any magnitude."""
+    import math
+    m = Fraction(m)
+    if m == 0:
+        return 0.0
+    try:
+        return math.sqrt(float(m))
+    except OverflowError:
+        pass
+    # scale by an even power of two into range
+    e = (m.numerator.bit_length() - m.denominator.bit_length()) // 2 * 2
+    return math.sqrt(float(m / Fraction(2) ** e)) * 2.0 ** (e // 2)
+
+
 def _exact_root(m):
+    """d2 is the square of a dyadic number with at most 26 significant bits (sqrt returns it exactly)."""
     import math
     a, b = m.numerator, m.denominator
     ra, rb = math.isqrt(a), math.isqrt(b)
-    return ra * ra == a and rb * rb == b and (rb & (rb - 1)) == 0 and rb <= (1 << 12)
+    if ra * ra != a or rb * rb != b or not _is_pow2(rb):
+        return False
+    return _fewbits(Fraction(ra, rb), 26)
 
 
 def _geometry_exact(st, op):
-    """cell, atoms and the requested position / vector lie on the dyadic grid: numpy's and Cython's
-    double arithmetic on them is exact (<= 12 fractional bits, |x| < 2^8)."""
-    vals = [x for r in st['vects'] for x in r] + st['origin'] + [x for r in st['rows'] for x in r['pos']]
+    """cell, atoms and the requested position / vector lie on a common binary grid fine enough that numpy's
+    and Cython's double arithmetic on them is exact — scale-free: with g = 2^e the finest bit used by any
+    value, every value is below 2^40 g (sums) and every cell-sized quantity (cell vectors, atom positions
+    and the requested position relative to the origin, the dumbbell vector) below 2^21 g (squares)."""
+    O = st['origin']
+    cell = [x for r in st['vects'] for x in r] + [x - o for r in st['rows'] for x, o in zip(r['pos'], O)]
+    extra = []
     if op['pos'] is not None:
-        vals += list(op['pos'])
+        p = [Fraction(float(x)) for x in op['pos']]
+        if op['scale']:
+            if not all(_is_dyadic(x) for x in p):
+                return False
+            cart = [a + b for a, b in zip(_vecmat(p, st['vects']), O)]
+        else:
+            cart = p
+        cell += [c - o for c, o in zip(cart, O)]
+        extra += cart
     if op['db_vect'] is not None:
-        vals += list(op['db_vect'])
-    return all(_is_dyadic(x) for x in vals)
+        d = [Fraction(float(x)) for x in op['db_vect']]
+        if op['scale']:
+            if not all(_is_dyadic(x) for x in d):
+                return False
+            d = _vecmat(d, st['vects'])
+        cell += d
+    allv = cell + list(O) + extra + [x for r in st['rows'] for x in r['pos']]
+    nz = [x for x in allv if x != 0]
+    if not nz:
+        return True
+    if not all(_is_pow2(x.denominator) or x.denominator == 1 for x in nz):
+        return False
+    e = min(_lowbit_exp(x) for x in nz)
+    g = Fraction(2) ** e
+    return all(abs(x) < g * 2 ** 40 for x in allv) and all(abs(x) < g * 2 ** 21 for x in cell)
 
 
 def _loose(st, op):
@@ -768,7 +1074,7 @@ def _undecidable(st, op, flags):
     """is the site search of this request within rounding of a discontinuity?  On the dyadic grid only
     a NON-dyadic tolerance within 1e-9 of a distance is (a dyadic one — the tie — is decided exactly)."""
     if _geometry_exact(st, op):
-        return 'near-tol' in flags and not (op['atol'] is not None and _is_dyadic(op['atol']))
+        return 'near-tol' in flags and not (op['atol'] is not None and _fewbits(op['atol'], 24))
     return bool(flags)          # off the grid every flag (also near-tol-exact-root) is a possible rounding flip
 
 
@@ -789,6 +1095,11 @@ def _expected(st, op):
             return ('err', 'assert', 'interstitial takes no ptd_id / db_vect')
         if t == 's' and op['db_vect'] is not None:
             return ('err', 'assert', 'substitutional takes no db_vect')
+    if fn != 'vacancy' and kw.get('atype') is not None and kw['atype'] < 1:
+        # whatever else is asked: there is no system with such an atom (Atoms: 'atype values < 1 not allowed')
+        return ('err', 'value', f'atom types start at 1, atype={kw["atype"]} requested')
+    if op.get('ptd_float') is not None and op['pos'] is None and fn != 'interstitial':
+        return ('err', ('type', 'index'), f'ptd_id={op["ptd_float"]!r} is not an integer')
     if fn == 'interstitial':
         cart = _cart(st, op)
         hits, flags = _sites(st, cart, atol)
@@ -863,7 +1174,7 @@ def _expected(st, op):
     return ('ok', exp, {'site': site, 'ndefect': 2})
 
 
-def _check_result(st, op, exp, info, res, before, after, system, result):
+def _check_result(st, op, exp, info, res, before, after, system, result, args=None):
     """clauses of the property on one accepted insertion; returns list of (key, message)."""
     np = _np()
     bad = []
@@ -894,13 +1205,14 @@ def _check_result(st, op, exp, info, res, before, after, system, result):
             bad.append((fn + ':dtype', f'{fn}: property {k} changed its dtype kind / per-atom shape {want_dt} -> {dt}'))
     nd = info['ndefect']
     loose = _loose(st, op) > 0
+    L = Fraction(_lscale(st))
     for j, (e, g) in enumerate(zip(exp, res['rows'])):
         role = 'other' if j < len(exp) - nd else 'defect'
         if e['atype'] != g['atype']:
             bad.append((f'{fn}:{role}-atype', f'{fn}: atom {j} ({role}) atype {g["atype"]}, expected {e["atype"]}'))
         if e['pos'] != g['pos']:
             tol_ok = loose and role == 'defect' and all(
-                abs(p - q) <= Fraction(1, 10 ** 12) * (1 + abs(q)) for p, q in zip(g['pos'], e['pos']))
+                abs(p - q) <= Fraction(1, 10 ** 12) * (L + abs(q)) for p, q in zip(g['pos'], e['pos']))
             if not tol_ok:
                 bad.append((f'{fn}:{role}-pos', f'{fn}: atom {j} ({role}) pos {[float(x) for x in g["pos"]]}, '
                             f'expected {[float(x) for x in e["pos"]]}'))
@@ -917,16 +1229,70 @@ def _check_result(st, op, exp, info, res, before, after, system, result):
     if result is not None:
         if result.box is system.box or result.atoms is system.atoms:
             bad.append((fn + ':aliasing', f'{fn}: result shares its Box/Atoms object with the input'))
-        for k in result.atoms_prop():
-            if k in system.atoms_prop() and np.shares_memory(result.atoms.view[k], system.atoms.view[k]):
-                bad.append((fn + ':aliasing', f'{fn}: result property {k} shares memory with the input'))
-        if np.shares_memory(result.box.vects, system.box.vects):
-            bad.append((fn + ':aliasing', f'{fn}: result box shares memory with the input box'))
+        bad += [(fn + ':aliasing', f'{fn}: {m}') for m in _shared(_arrays(result, 'result'), _arrays(system, 'input'))]
+        if args is not None:
+            bad += [(fn + ':aliasing', f'{fn}: {m}') for m in _shared(_arrays(result, 'result'), _arg_arrays(args))]
     return bad
 
 
-def _oracle_step(system, op):
-    """run one insertion on the real code and judge it. Returns (status, result-or-None, findings, exp)."""
+def _arrays(system, who):
+    """every ndarray reachable from a System through its public surface and its instance dictionaries."""
+    np = _np()
+    out = {}
+    for k in system.atoms_prop():
+        out[f'{who}.atoms.{k}'] = system.atoms.view[k]
+    out[f'{who}.pbc'] = system.pbc
+    out[f'{who}.box.vects'] = system.box.vects
+    out[f'{who}.box.origin'] = system.box.origin
+    for owner, name in ((system, 'System'), (system.atoms, 'Atoms'), (system.box, 'Box')):
+        for k, v in vars(owner).items():
+            if isinstance(v, np.ndarray):
+                out[f'{who}.{name}.{k}'] = v
+    return out
+
+
+def _arg_arrays(args):
+    np = _np()
+    pos, db, kw = args
+    out = {}
+    if isinstance(pos, np.ndarray):
+        out['argument pos'] = pos
+    if isinstance(db, np.ndarray):
+        out['argument db_vect'] = db
+    for k, v in (kw or {}).items():
+        if isinstance(v, np.ndarray):
+            out['argument ' + k] = v
+    return out
+
+
+def _shared(a, b):
+    np = _np()
+    return [f'{ka} shares memory with {kb}' for ka, va in a.items() for kb, vb in b.items()
+            if va.size and vb.size and np.shares_memory(va, vb)]
+
+
+def _scribble(system):
+    """overwrite every array of a (discarded) result in place."""
+    np = _np()
+    for name, a in _arrays(system, 'r').items():
+        try:
+            if not a.flags.writeable:
+                continue
+            if a.dtype.kind == 'b':
+                a[...] = ~a
+            elif a.dtype.kind in 'US':
+                a[...] = 'zz'
+            elif a.dtype.kind in 'iu':
+                a[...] = a + 17
+            else:
+                a[...] = a * 3 + 1.5
+        except Exception:
+            pass
+
+
+def _oracle_step(system, op, probe=False):
+    """run one insertion on the real code and judge it. Returns (status, result-or-None, findings, exp).
+    `probe`: also repeat the identical call and write into its result (fresh outputs, no hidden state)."""
     st = _state(system)
     before = _snapshot(system)
     out = _call(op, system)
@@ -935,22 +1301,53 @@ def _oracle_step(system, op):
     findings = []
     fn = op['fn']
     if before != after:
-        findings.append((fn + ':input-mutated', f'{fn}: the input system was modified by the call'))
+        findings.append((fn + ':input-mutated', f'{fn}: the input system was modified by the call: '
+                         f'{[k for k in before if before[k] != after.get(k)] + [k for k in after if k not in before]}'))
     if exp[0] == 'skip':
         return ('skip', out[1] if out[0] == 'ok' else None, findings, exp)
     if exp[0] == 'err':
         if out[0] == 'ok':
             findings.append((f'{fn}:not-refused', f'{fn} accepted a request that must be refused ({exp[2]})'))
             return ('bad', out[1], findings, exp)
-        if out[1] != exp[1]:
+        if out[1] != exp[1] and not (isinstance(exp[1], tuple) and out[1] in exp[1]):
             findings.append((f'{fn}:refusal-class', f'{fn} refused with {out[2]} where {exp[1]} ({exp[2]}) is documented'))
         return ('refused', None, findings, exp)
     if out[0] == 'err':
         findings.append((f'{fn}:refused-valid', f'{fn} refused a valid request (site {exp[2]["site"]}): {out[2]}'))
         return ('bad', None, findings, exp)
-    res = _state(out[1])
-    findings += _check_result(st, op, exp[1], exp[2], res, before, after, system, out[1])
+    try:
+        res = _state(out[1])
+    except Exception as e:  # noqa
+        findings.append((f'{fn}:result-unusable', f'{fn} returned a system that cannot be read: {type(e).__name__}: {e}'))
+        return ('bad', None, findings, exp)
+    findings += _check_result(st, op, exp[1], exp[2], res, before, after, system, out[1], out[2])
+    if probe and not findings:
+        findings += _probe_repeat(system, op, out[1], before)
     return ('ok' if not findings else 'bad', out[1], findings, exp)
+
+
+def _probe_repeat(system, op, first, before):
+    """the identical request again on the same input object: the same system, in fresh arrays; writing
+    into one result changes neither the input, nor the other result, nor what a third call returns."""
+    fn = op['fn']
+    bad = []
+    snap1 = _snapshot(first)
+    out2 = _call(op, system)
+    if out2[0] != 'ok':
+        return [(fn + ':not-repeatable', f'{fn}: the identical request on the same input is refused the second time ({out2[2]})')]
+    if _snapshot(out2[1]) != snap1:
+        bad.append((fn + ':not-repeatable', f'{fn}: the identical request on the same input gives a different system the second time'))
+    bad += [(fn + ':aliasing', f'{fn}: two results of the same request: {m}')
+            for m in _shared(_arrays(out2[1], 'second'), _arrays(first, 'first'))]
+    _scribble(out2[1])
+    if _snapshot(system) != before:
+        bad.append((fn + ':aliasing', f'{fn}: writing into the arrays of a result changed the input system'))
+    if _snapshot(first) != snap1:
+        bad.append((fn + ':aliasing', f'{fn}: writing into the arrays of one result changed another result'))
+    out3 = _call(op, system)
+    if out3[0] != 'ok' or _snapshot(out3[1]) != snap1:
+        bad.append((fn + ':not-repeatable', f'{fn}: after writing into an earlier result the identical request gives a different outcome'))
+    return bad
 
 
 def _sys_desc_of(system):
@@ -966,8 +1363,9 @@ def _sys_desc_of(system):
             d['old_id'] = [int(x) for x in a]
             d['old_first'] = list(system.atoms_prop()).index('old_id') == 2 and len(system.atoms_prop()) > 3
         elif k not in RESERVED:
-            dt = 'float' if a.dtype.kind == 'f' else ('bool' if a.dtype.kind == 'b' else 'int')
-            d['props'][k] = {'dtype': dt, 'shape': list(a.shape[1:]), 'data': a.reshape(len(a), -1).tolist()}
+            dt = _dtname(a)
+            d['props'][k] = {'dtype': dt, 'shape': list(a.shape[1:]),
+                             'data': (_num(a).astype(int) if dt == 'str' else a).reshape(len(a), -1).tolist()}
     return d
 
 
@@ -981,6 +1379,13 @@ def _nontrivial(op, out):
         not (op['pos'] is not None and op['ptd_id'] is not None)
 
 
+def _safe_dump(system):
+    try:
+        return 'ok ' + _dump(system)
+    except Exception as e:  # noqa  (e.g. a result carrying atom type 0: `symbols` raises)
+        return f'unreadable-result:{type(e).__name__}'
+
+
 def _corr_op(ctx, system, desc, hist, op, it, sline, lines, checks, dist, label='corr'):
     """queue one insertion for the model and run it on the implementation."""
     st = _state(system)
@@ -989,22 +1394,89 @@ def _corr_op(ctx, system, desc, hist, op, it, sline, lines, checks, dist, label=
     after = _snapshot(system)
     exp = _expected(st, op)
     line = _op_line(op)
+    if op.get('units'):
+        # the working length unit is part of the request: the model's default tolerance follows it
+        d = _default_atol_frac(op)
+        lines.append(f'dflt {d.numerator}/{d.denominator}')
+        checks.append(('aux', None, None, None, None, it))
     lines.append(line)
-    want = 'ok ' + _dump(out[1]) if out[0] == 'ok' else 'err:' + out[1]
+    want = _safe_dump(out[1]) if out[0] == 'ok' else 'err:' + out[1]
     loose = _loose(st, op)
     exempt = exp[0] == 'skip'
-    checks.append(('op', desc, list(hist), want, (loose, exempt, before != after, out), it))
+    checks.append(('op', desc, list(hist), want, (loose, exempt, before != after, out[:2] + (out[2] if out[0] == 'err' else None,)), it))
+    if op.get('units'):
+        lines.append('dflt')
+        checks.append(('aux', None, None, None, None, it))
     kind = op['fn'] + ('/point' if op['via'] == 'point' else '') + ':' + ('ok' if out[0] == 'ok' else out[1])
     dist[kind] = dist.get(kind, 0) + 1
     tl = [x for x in op['note'] if x.startswith('atol:')]
     if tl and op['pos'] is not None:
         key = tl[0] + '/' + (op.get('atol_type', 'float') if op['atol'] is not None else 'None')
         dist[key] = dist.get(key, 0) + 1
-    ctx.stats.case(label + ':' + kind, (sline, line), nontrivial=_nontrivial(op, out),
-                   sample={'system': {k: desc.get(k) for k in ('cell', 'vects', 'origin', 'pbc', 'atype')},
+    for dim in ('posstyle', 'dbstyle', 'scalestyle', 'units', 'ptd_np'):
+        if op.get(dim) and not (dim == 'posstyle' and op['pos'] is None) and not (dim == 'dbstyle' and op['db_vect'] is None):
+            key = f'{dim}:{op[dim]}'
+            dist[key] = dist.get(key, 0) + 1
+    ctx.stats.case(label + ':' + kind, (sline, line, op.get('units')), nontrivial=_nontrivial(op, out),
+                   sample={'system': {k: desc.get(k) for k in ('cell', 'k', 'vects', 'origin', 'pbc', 'atype')},
                            'op': {k: v for k, v in op.items() if k != 'kw'}, 'kwargs': sorted(op['kw']),
                            'outcome': out[0] if out[0] == 'ok' else out[1]})
     return out, loose
+
+
+EDIT_KINDS = ('move', 'swap', 'onto', 'pbc', 'atype', 'prop', 'origin')
+
+
+def _gen_edit(rng, system, k=0):
+    """an in-place change of the INPUT object between two requests (what a user script does)."""
+    n = system.natoms
+    F = float(_pow2(k))
+    kind = rng.choice(EDIT_KINDS)
+    e = {'edit': kind}
+    if kind == 'move':
+        e.update(i=rng.randrange(n), d=[float(Fraction(cm.dyadic(rng, -2, 2, 3)) * Fraction(F)) for _ in range(3)])
+    elif kind in ('swap', 'onto'):
+        if n < 2:
+            return _gen_edit(rng, system, k)
+        i, j = rng.sample(range(n), 2)
+        e.update(i=i, j=j)
+    elif kind == 'pbc':
+        e.update(pbc=[rng.random() < 0.5 for _ in range(3)])
+    elif kind == 'atype':
+        e.update(i=rng.randrange(n), t=rng.randint(1, 3))
+    elif kind == 'prop':
+        keys = [q for q in _keys(system) if system.atoms.view[q].dtype.kind in 'fi']
+        if not keys:
+            return _gen_edit(rng, system, k)
+        e.update(i=rng.randrange(n), key=rng.choice(keys), add=rng.randint(1, 5))
+    elif kind == 'origin':
+        e.update(d=[float(Fraction(cm.dyadic(rng, -2, 2, 2)) * Fraction(F)) for _ in range(3)])
+    return e
+
+
+def _apply_edit(system, e):
+    np = _np()
+    kind = e['edit']
+    pos = system.atoms.pos
+    if kind == 'move':
+        pos[e['i']] = pos[e['i']] + np.array(e['d'])
+    elif kind == 'swap':
+        a, b = pos[e['i']].copy(), pos[e['j']].copy()
+        pos[e['i']], pos[e['j']] = b, a
+    elif kind == 'onto':
+        # atom j takes the place of atom i, atom i goes one cell diagonal further
+        a = pos[e['i']].copy()
+        pos[e['i']] = a + 0.5 * (system.box.avect + system.box.bvect + system.box.cvect) + (pos[e['j']] - a) * 0.25
+        pos[e['j']] = a
+    elif kind == 'pbc':
+        system.pbc = e['pbc']
+    elif kind == 'atype':
+        system.atoms.atype[e['i']] = e['t']
+    elif kind == 'prop':
+        v = system.atoms.view[e['key']]
+        v[e['i']] = v[e['i']] + e['add']
+    elif kind == 'origin':
+        system.box_set(vects=system.box.vects, origin=system.box.origin + np.array(e['d']))
 
 
 def correspond(ctx):
@@ -1018,10 +1490,10 @@ def correspond(ctx):
         sline = 'sys ' + _dump(system)
         lines.append(sline)
         checks.append(('sys', desc, None, 'ok ' + _dump(system), None, it))
-        nops = rng.choice([1, 2, 3, 4])
+        nops = rng.choice([1, 2, 3, 4] * 4 + [5, 7, 10])
         hist = []
-        for k in range(nops):
-            op = _gen_op(rng, system)
+        for q in range(nops):
+            op = _gen_op(rng, system, desc['k'])
             hist.append(op)
             out, loose = _corr_op(ctx, system, desc, hist, op, it, sline, lines, checks, dist)
             if out[0] == 'ok':
@@ -1034,20 +1506,39 @@ def correspond(ctx):
     # the tolerance dimension, systematically: independent requests on one system each
     it = nsys
     for q in range(ctx.n(10, 80)):
-        desc = _gen_system(rng, natoms=rng.choice([1, 2, 3, 4, 5, 6]))
+        desc = _gen_system(rng, natoms=rng.choice([1, 2, 3, 4, 5, 6]), k=_sweep_k(rng))
         system = _mk_system(desc)
         sline = 'sys ' + _dump(system)
-        for op in _sweep_ops(rng, system, ctx.n(2, 4)):
+        for op in _sweep_ops(rng, system, ctx.n(2, 4), desc['k']):
             it += 1
             lines.append(sline)
             checks.append(('sys', desc, None, 'ok ' + _dump(system), None, it))
             _corr_op(ctx, system, desc, [op], op, it, sline, lines, checks, dist, label='corr-sweep')
+    # requests on ONE input object with in-place edits of it in between: the model gets the object's
+    # current content each time, so anything remembered from an earlier call shows as a difference
+    for q in range(ctx.n(60, 600)):
+        it += 1
+        desc = _gen_system(rng, natoms=rng.choice([2, 3, 4, 5, 6]))
+        system = _mk_system(desc)
+        script = []
+        op = None
+        for step in range(rng.choice([3, 4, 5, 6])):
+            if op is None or rng.random() < 0.4:
+                op = _gen_op(rng, system, desc['k'])
+            script.append(op)
+            sline = 'sys ' + _dump(system)
+            lines.append(sline)
+            checks.append(('sys', desc, None, 'ok ' + _dump(system), None, it))
+            _corr_op(ctx, system, desc, list(script), op, it, sline, lines, checks, dist, label='corr-same-object')
+            e = _gen_edit(rng, system, desc['k'])
+            script.append(e)
+            _apply_edit(system, e)
     outs = ctx.driver.ask_many(lines)
     ctx.extra['correspondence_outcomes'] = dist
     dead = set()
     nex = 0
     for (kind, desc, hist, want, aux, it), got in zip(checks, outs):
-        if it in dead:
+        if it in dead or kind == 'aux':
             continue
         if kind == 'sys':
             if got != want:
@@ -1057,9 +1548,9 @@ def correspond(ctx):
             continue
         loose, exempt, mutated, out = aux
         op = hist[-1]
+        rp = {'op': 'script' if any('edit' in h for h in hist) else 'history', 'system': desc, 'ops': hist}
         if mutated:
-            ctx.disagree(op['fn'] + ':input-mutated', f'{op["fn"]} modified its input system (the model is functional)',
-                         {'op': 'history', 'system': desc, 'ops': hist})
+            ctx.disagree(op['fn'] + ':input-mutated', f'{op["fn"]} modified its input system (the model is functional)', rp)
         if exempt:
             nex += 1
             dead.add(it)          # states may have diverged legitimately: stop comparing this history
@@ -1068,11 +1559,16 @@ def correspond(ctx):
             _same_dump(want[3:], got[3:], loose)
         if not same:
             dead.add(it)
-            what = f'{op["fn"]} ({"point" if op["via"] == "point" else "direct"}; notes {op["note"]}): implementation ' \
+            what = f'{op["fn"]} ({"point" if op["via"] == "point" else "direct"}; notes {op["note"]}' \
+                   f'{"; units " + op["units"] if op.get("units") else ""}): implementation ' \
                    f'{_brief(want, out)} != model {_brief(got, None)}'
             ctx.disagree(op['fn'] + ':' + ('outcome' if (got[:3] != want[:3]) else 'system'), what,
-                         {'op': 'history', 'system': desc, 'ops': hist, 'impl': want[:400], 'model': got[:400]})
+                         dict(rp, impl=want[:400], model=got[:400]))
     ctx.extra['correspondence_exempt_borderline'] = nex
+
+
+def _sweep_k(rng):
+    return rng.choice(SCALE_EXPONENTS) if rng.random() < 0.35 else 0
 
 
 def _brief(text, out):
@@ -1085,8 +1581,27 @@ def _brief(text, out):
 # search: the property's clauses on the real code
 # ----------------------------------------------------------------------------------------
 
-def _equal_results(a, b):
-    return _snapshot(a) == _snapshot(b)
+def _equal_results(a, b, loose=0, L=1.0):
+    """identical systems; with `loose` the positions of the last `loose` atoms to 1e-12 of the length scale
+    (off the binary grid `rel . vects` in floating point and the exactly converted vector differ by rounding)."""
+    def norm(sn):
+        # the WIDTH of an integer property is not part of the result (old_id of a one-atom system takes the
+        # width of a numpy index object): compare integer columns by kind
+        return {k: (('int',) + tuple(v[1:]) if k.startswith('p:') and v[0].startswith(('int', 'uint')) else v)
+                for k, v in sn.items()}
+    sa, sb = norm(_snapshot(a)), norm(_snapshot(b))
+    if sa == sb:
+        return True
+    if not loose or {k: v for k, v in sa.items() if k != 'p:pos'} != {k: v for k, v in sb.items() if k != 'p:pos'}:
+        return False
+    pa, pb = sa['p:pos'], sb['p:pos']
+    if pa[:2] != pb[:2]:
+        return False
+    n = len(pa[2])
+    for j, (x, y) in enumerate(zip(pa[2], pb[2])):
+        if x != y and (j < n - 3 * loose or abs(x - y) > 1e-12 * (L + abs(y))):
+            return False
+    return True
 
 
 def _selection_equivalence(ctx, system, op, exp, result, desc, hist):
@@ -1106,20 +1621,30 @@ def _selection_equivalence(ctx, system, op, exp, result, desc, hist):
     hits, flags = _sites(st, base, atol)
     if hits == [site] and not _undecidable(st, dict(op, pos=[float(x) for x in base]), flags):
         variants.append(('Cartesian pos', dict(op, pos=[float(x) for x in base], ptd_id=None, scale=False,
-                                               db_vect=_db_as(op, st, False))))
+                                               db_vect=_db_as(op, st, False), dbstyle='array')))
         shift = [ctx.rng.choice([-1, 0, 1]) if pb else 0 for pb in st['pbc']]
         img = [b + s for b, s in zip(base, _vecmat(shift, st['vects']))]
         variants.append((f'Cartesian pos through image {shift}', dict(op, pos=[float(x) for x in img], ptd_id=None,
-                                                                     scale=False, db_vect=_db_as(op, st, False))))
+                                                                     scale=False, db_vect=_db_as(op, st, False),
+                                                                     dbstyle='array')))
         inv = _inv(st['vects'])
         rel = _vecmat([c - o for c, o in zip(img, st['origin'])], inv)
         if all(Fraction(float(x)) == x for x in rel) and all(Fraction(float(x)) == x for x in _db_rel(op, st, inv)):
             variants.append((f'box-relative pos through image {shift}',
-                             dict(op, pos=[float(x) for x in rel], ptd_id=None, scale=True,
+                             dict(op, pos=[float(x) for x in rel], ptd_id=None, scale=True, dbstyle='array',
                                   db_vect=[float(x) for x in _db_rel(op, st, inv)] if op['db_vect'] is not None else None)))
     for name, v in variants:
         v = dict(v, note=[])
-        for style in (['array'] if 'index' in name else ['array', 'list', 'tuple']):
+        if v['pos'] is not None:
+            # judge the variant's own (rounded) position: off the binary grid an image is not an exact hit
+            vh, vf = _sites(st, _cart(st, v), atol)
+            if vh != [site] or _undecidable(st, v, vf):
+                continue
+        styles = ['array']
+        if 'index' not in name:
+            more = ['readonly', 'noncontig', 'row', 'mixed'] + (['float32'] if _f32ok(v['pos']) else [])
+            styles = ['array', 'list', 'tuple'] + ctx.rng.sample(more, 2)
+        for style in styles:
             v['posstyle'] = style
             out = _call(v, system)
             ctx.stats.case('oracle:selection:' + name.split(' through')[0], (repr(desc), repr(hist), name, style))
@@ -1128,7 +1653,7 @@ def _selection_equivalence(ctx, system, op, exp, result, desc, hist):
                             f'{op["fn"]}: atom {site} selected by {name} ({style}) is refused ({out[2]}) although the same '
                             f'site is accepted when selected as in the original request',
                             {'op': 'history', 'system': desc, 'ops': hist[:-1] + [op], 'variant': v, 'how': name})
-            elif not _equal_results(out[1], result):
+            elif not _equal_results(out[1], result, max(_loose(st, v), _loose(st, op)), _lscale(st)):
                 ctx.violate(f'{op["fn"]}:selection-differs',
                             f'{op["fn"]}: selecting atom {site} by {name} ({style}) gives a different system than the original request',
                             {'op': 'history', 'system': desc, 'ops': hist[:-1] + [op], 'variant': v, 'how': name})
@@ -1153,13 +1678,16 @@ def _db_rel(op, st, inv):
     return db
 
 
-def _run_history(ctx, desc, ops, label, gen=None, nops=0):
-    """judge a history on the real code (ops given, or generated step by step with `gen`)."""
+def _run_history(ctx, desc, ops, label, gen=None, nops=0, rng=None, same_object=False):
+    """judge a history on the real code (ops given, or generated step by step with `gen`).  Entries with an
+    'edit' key change the current input object in place.  `same_object`: every request goes to the SAME
+    input object (results are judged and dropped) — with edits in between this is the stale-memo probe."""
     system = _mk_system(desc)
     first_hasold = desc.get('old_id') is not None
     prov = list(range(system.natoms))          # index in the first system of every current atom (None: created)
     hist = []
     k = 0
+    rkind = 'script' if same_object else 'history'
     while True:
         if gen is not None:
             if k >= nops:
@@ -1171,18 +1699,23 @@ def _run_history(ctx, desc, ops, label, gen=None, nops=0):
             op = ops[k]
         k += 1
         hist.append(op)
-        status, result, findings, exp = _oracle_step(system, op)
+        if 'edit' in op:
+            _apply_edit(system, op)
+            prov = [None] * system.natoms
+            continue
+        probe = rng is not None and rng.random() < 0.15
+        status, result, findings, exp = _oracle_step(system, op, probe=probe or label == 'replay')
         ctx.stats.case(f'oracle:{label}:{op["fn"]}:{status}', (repr(desc), repr(hist)),
                        nontrivial=status != 'skip',
                        sample={'first_system': {q: desc[q] for q in ('vects', 'origin', 'pbc', 'atype')},
-                               'history': [o['fn'] for o in hist], 'last': {q: v for q, v in op.items() if q != 'kw'},
-                               'status': status})
+                               'history': [o.get('fn', 'edit:' + str(o.get('edit'))) for o in hist],
+                               'last': {q: v for q, v in op.items() if q != 'kw'}, 'status': status})
         for key, msg in findings:
-            ctx.violate(key, msg + f' [history of {len(hist)} insertion(s), {label}]',
-                        {'op': 'history', 'system': desc, 'ops': list(hist)})
-        if status == 'ok' and gen is not None:
+            ctx.violate(key, msg + f' [history of {len(hist)} step(s), {label}]',
+                        {'op': rkind, 'system': desc, 'ops': list(hist)})
+        if status == 'ok' and gen is not None and not same_object:
             _selection_equivalence(ctx, system, op, exp, result, desc, hist)
-        if result is None:
+        if result is None or same_object:
             continue                       # refused: the system stays as it was
         if exp[0] == 'ok' and len(exp[1]) == result.natoms:
             prov = [None if e['orig'] is None else prov[e['orig']] for e in exp[1]]
@@ -1203,7 +1736,7 @@ def _run_history(ctx, desc, ops, label, gen=None, nops=0):
 
 def _special_cases(ctx, rng):
     """inputs the random generator reaches rarely: integer-valued positions given as Python ints,
-    one-atom systems, list/tuple positions."""
+    one-atom systems, list/tuple positions, index objects that are not integers."""
     # integer-valued atom positions, requested with Python ints / an integer array
     for it in range(ctx.n(12, 60)):
         n = rng.choice([1, 2, 3, 4, 5])
@@ -1212,12 +1745,12 @@ def _special_cases(ctx, rng):
         pts = rng.sample(cells, n)
         if it % 2 == 0:
             pts[0] = (0, 0, 0)
-        desc = {'cell': 'cubic', 'vects': [[a, 0, 0], [0, a, 0], [0, 0, a]], 'origin': [0.0, 0.0, 0.0],
+        desc = {'cell': 'cubic', 'k': 0, 'vects': [[a, 0, 0], [0, a, 0], [0, 0, a]], 'origin': [0.0, 0.0, 0.0],
                 'pbc': [True, True, True], 'symbols': ['Al', 'Cu'], 'atype': [1 + (i % 2) for i in range(n)],
                 'pos': [[float(c) for c in p] for p in pts], 'props': {}, 'old_id': None, 'old_first': False}
         for fn in ('vacancy', 'substitutional', 'dumbbell', 'interstitial'):
-            i = rng.randrange(n)
-            for style in ('intlist', 'intarray', 'list'):
+            i = 0 if it % 4 == 0 else rng.randrange(n)           # the atom at [0, 0, 0]: a falsy-looking position
+            for style in ('intlist', 'intarray', 'int32array', 'list', 'mixed', 'float32'):
                 if fn == 'interstitial':
                     free = [c for c in cells if c not in pts]
                     pos = list(rng.choice(free))
@@ -1225,17 +1758,51 @@ def _special_cases(ctx, rng):
                 else:
                     pos = list(pts[i])
                     kw = {'atype': 3} if fn == 'substitutional' else {}
-                op = {'fn': fn, 'via': 'direct', 'ptd_type': FN_TYPE[fn], 'pos': [float(x) for x in pos], 'ptd_id': None,
-                      'db_vect': [0.25, 0.0, 0.0] if fn == 'dumbbell' else None, 'scale': False, 'atol': None, 'kw': kw,
-                      'note': ['integer-valued pos'], 'posstyle': style}
+                op = {'fn': fn, 'via': rng.choice(['direct', 'point']), 'ptd_type': FN_TYPE[fn], 'pos': [float(x) for x in pos],
+                      'ptd_id': None, 'db_vect': [0.25, 0.0, 0.0] if fn == 'dumbbell' else None, 'scale': False, 'atol': None,
+                      'kw': kw, 'note': ['integer-valued pos'], 'posstyle': style}
                 _run_history(ctx, desc, [op], 'intpos-' + style)
     # one-atom systems: every generator, by index and by position
     for it in range(ctx.n(6, 40)):
         desc = _gen_system(rng, natoms=1)
 
-        def gen(system, rng=rng):
-            return _gen_op(rng, system)
-        _run_history(ctx, desc, None, 'one-atom', gen=gen, nops=3)
+        def gen(system, rng=rng, k=desc['k']):
+            return _gen_op(rng, system, k)
+        _run_history(ctx, desc, None, 'one-atom', gen=gen, nops=3, rng=rng)
+    # an index that is not an integer (2.0, 1.5, numpy.float64, a string) is refused, never truncated
+    for it in range(ctx.n(10, 60)):
+        desc = _gen_system(rng, natoms=rng.choice([2, 3, 4, 5]))
+        n = len(desc['atype'])
+        for fn in ('vacancy', 'substitutional', 'dumbbell'):
+            i = rng.randrange(n)
+            for bad in (float(i), i + 0.5, -0.5, 'np.float64', str(i)):
+                op = {'fn': fn, 'via': rng.choice(['direct', 'point']), 'ptd_type': FN_TYPE[fn], 'pos': None, 'ptd_id': i,
+                      'ptd_float': bad, 'db_vect': [0.25, 0.0, 0.0] if fn == 'dumbbell' else None, 'scale': False,
+                      'atol': None, 'kw': {'atype': 4} if fn == 'substitutional' else {}, 'note': ['non-integer ptd_id']}
+                if bad == 'np.float64':
+                    op['ptd_float'] = float(i)
+                    op['ptd_float_np'] = True
+                _run_history(ctx, desc, [op], 'float-index')
+
+
+def _same_object_sequences(ctx, rng, broken):
+    """several requests to ONE input object, the object edited in place in between (atoms moved / swapped,
+    pbc, types, property values, the box origin): every outcome must be the one a fresh object with the
+    same content gives — nothing may be remembered on the system, its Atoms / Box, or the module."""
+    for q in range(ctx.n(60, 500) * (2 if broken else 1)):
+        desc = _gen_system(rng, natoms=rng.choice([2, 3, 4, 5, 6]))
+        state = {'op': None}
+
+        def gen(system, rng=rng, k=desc['k'], state=state):
+            # alternate request / edit; the request is often the SAME as before the edit
+            if state['op'] is not None and state.get('edit_next'):
+                state['edit_next'] = False
+                return _gen_edit(rng, system, k)
+            if state['op'] is None or rng.random() < 0.4:
+                state['op'] = _gen_op(rng, system, k)
+            state['edit_next'] = True
+            return state['op']
+        _run_history(ctx, desc, None, 'same-object', gen=gen, nops=rng.choice([5, 7, 9]), rng=rng, same_object=True)
 
 
 def search(ctx, broken):
@@ -1244,28 +1811,31 @@ def search(ctx, broken):
     for it in range(nsys):
         desc = _gen_system(rng)
 
-        def gen(system, rng=rng):
-            return _gen_op(rng, system)
-        _run_history(ctx, desc, None, 'random', gen=gen, nops=rng.choice([1, 2, 3, 4]))
+        def gen(system, rng=rng, k=desc['k']):
+            return _gen_op(rng, system, k)
+        _run_history(ctx, desc, None, 'random', gen=gen, nops=rng.choice([1, 2, 3, 4] * 4 + [5, 7, 10]), rng=rng)
     _special_cases(ctx, rng)
     _tolerance_sweep(ctx, rng, broken)
+    _same_object_sequences(ctx, rng, broken)
 
 
 def _tolerance_sweep(ctx, rng, broken):
-    """every tolerance candidate around every kind of offset, judged by the oracle (see _sweep_ops)."""
+    """every tolerance candidate around every kind of offset, judged by the oracle (see _sweep_ops) — at
+    the angstrom scale and with the whole geometry scaled by powers of two, under the default and under
+    other working units."""
     for q in range(ctx.n(10, 80) * (2 if broken else 1)):
-        desc = _gen_system(rng, natoms=rng.choice([1, 2, 3, 4, 5, 6]))
+        desc = _gen_system(rng, natoms=rng.choice([1, 2, 3, 4, 5, 6]), k=_sweep_k(rng))
         system = _mk_system(desc)
-        for op in _sweep_ops(rng, system, ctx.n(2, 4)):
+        for op in _sweep_ops(rng, system, ctx.n(2, 4), desc['k']):
             _run_history(ctx, desc, [op], 'tol-sweep')
 
 
 def replay(ctx, payload):
     r = payload.get('replay', {}) or {}
-    if r.get('op') == 'history' and 'system' in r:
+    if r.get('op') in ('history', 'script') and 'system' in r:
         ops = list(r.get('ops', []))
         before = len(ctx.violations)
-        _run_history(ctx, r['system'], ops, 'replay')
+        _run_history(ctx, r['system'], ops, 'replay', same_object=r.get('op') == 'script')
         if 'variant' in r and ops:
             # selection-equivalence case: run the history up to the last op, then both requests
             system = _mk_system(r['system'])
@@ -1275,16 +1845,24 @@ def replay(ctx, payload):
                     system = out[1]
             a, b = _call(ops[-1], system), _call(r['variant'], system)
             print('replay: original request ->', a[0], '; variant', r.get('how'), '->', b[0], b[2] if b[0] == 'err' else '')
-            if a[0] == 'ok' and (b[0] != 'ok' or not _equal_results(a[1], b[1])):
+            v, st = r['variant'], _state(system)
+            decided = v['pos'] is None or not _undecidable(st, v, _sites(st, _cart(st, v), _atol_frac(v))[1])
+            if decided and a[0] == 'ok' and (b[0] != 'ok' or not _equal_results(
+                    a[1], b[1], max(_loose(st, v), _loose(st, ops[-1])), _lscale(st))):
                 ctx.violate(ops[-1]['fn'] + ':selection', 'replayed selection variant still differs', r)
         print(f'replay: {len(ctx.violations) - before} finding(s)')
         for f in ctx.violations[before:]:
             print('  ', f.what)
-        if ctx.driver is not None:
+        if ctx.driver is not None and r.get('op') == 'history':
             system = _mk_system(r['system'])
             print('model:', ctx.driver.ask('sys ' + _dump(system))[:200])
             for op in ops:
+                if op.get('units'):
+                    d = _default_atol_frac(op)
+                    ctx.driver.ask(f'dflt {d.numerator}/{d.denominator}')
                 print('model:', ctx.driver.ask(_op_line(op))[:300])
+                if op.get('units'):
+                    ctx.driver.ask('dflt')
     else:
         search(ctx, True)
 
